@@ -138,12 +138,15 @@ def cdc_bench(name, cmd_depth=4, wdata_depth=4, rdata_depth=4, fairness=3, aw=4,
         asm("write_only_traffic", ~pu.cmd.valid | pu.cmd.we)
         asm("marked_command_and_marked_data_are_the_same_ordinal_accepted_in_the_same_user_cycle",
             (mc.mark_now == mw.mark_now) & (~mc.mark_now | (ncmd == ndat)))
+        asm("user_hands_over_write_data_no_later_than_the_command_it_belongs_to", ndat + ev["wdata"][0] >= ncmd + ev["cmd"][0])
         asm("controller_side_takes_write_data_at_once", pc.wdata.ready)
         bad("write_command_offered_to_controller_before_its_data_word",
             ts & pc.cmd.valid & mc.at_head & ~(mw.done | (mw.at_head & pc.wdata.valid)))
         cw = Signal()
         top.comb += cw.eq(ts & pc.cmd.valid & mc.at_head & mw.done)
         covers["marked_write_command_offered_after_its_data_was_taken"] = cw
+        dbg = {"u_wv": pu.wdata.valid, "u_wr": pu.wdata.ready, "c_wv": pc.wdata.valid, "mc_now": mc.mark_now, "mw_now": mw.mark_now,
+               "mc_head": mc.at_head, "mw_head": mw.at_head, "mw_done": mw.done, "ncmd": ncmd, "ndat": ndat, "mc_lvl": mc.level, "mw_lvl": mw.level}
     # the real crossbar does not wait for rdata.ready: read data offered while the CDC cannot take it is lost
     bad("read_data_offered_while_crossing_cannot_take_it_word_lost", pc.rdata.valid & ~pc.rdata.ready)
     # ... and the crossing refuses a word only when it really holds (about) rdata_depth words: occupancy + words the user popped
@@ -170,8 +173,11 @@ def cdc_bench(name, cmd_depth=4, wdata_depth=4, rdata_depth=4, fairness=3, aw=4,
     b = bmc.Bench(name, top, inputs, consts=consts, assumes=assumes, bads=bads, covers=covers, schedule="free", fairness=fairness,
                   clock_domains=("sys", "user", "mon"), tick_inputs={"user": tu, "sys": ts}, always_tick=("mon",),
                   info=dict(cmd_depth=cmd_depth, wdata_depth=wdata_depth, rdata_depth=rdata_depth, fairness=fairness))
-    b.watch = {"tick_u": tu, "tick_s": ts, "u_cv": pu.cmd.valid, "u_cr": pu.cmd.ready, "c_cv": pc.cmd.valid, "c_cr": pc.cmd.ready,
-               "c_rv": pc.rdata.valid, "c_rr": pc.rdata.ready, "u_rv": pu.rdata.valid}
+    b.watch = {}
+    if wr_contract:
+        b.watch.update(dbg)
+    b.watch.update({"tick_u": tu, "tick_s": ts, "u_cv": pu.cmd.valid, "u_cr": pu.cmd.ready, "c_cv": pc.cmd.valid, "c_cr": pc.cmd.ready,
+               "c_rv": pc.rdata.valid, "c_rr": pc.rdata.ready, "u_rv": pu.rdata.valid})
     return b
 
 
@@ -291,8 +297,16 @@ def run(ctx):
     ctx.assume("reset sequencing of the two domains is not modelled (both start from their reset state)")
     ctx.assume("benches without the 'unbounded_reads' prefix: the controller side offers read data only while the crossing is ready "
                "(otherwise see the known finding on the unbounded benches)")
+    ctx.assume("'wrcontract_' bench: write-only traffic, the user hands over each data word no later than its command, the controller "
+               "side takes write data at once; the marked command and its data word enter the crossing in the same user cycle")
     for n, (kw, kq, kt, tiers) in CONFIGS.items():
         if ctx.only and not ctx.only.search(n):
+            continue
+        if n.startswith("wrcontract"):
+            if ctx.tier == "quick" or ctx.tier == "thorough":
+                K = kq if ctx.tier == "quick" else kt
+                ctx.add(n, K, timeout=900, min_K=16, chunk=4, diff_cycles=10, cover_required=False,
+                        bads=["write_command_offered_to_controller_before_its_data_word"])
             continue
         if ctx.tier == "quick" and "q" in tiers:
             ctx.add(n, kq, timeout=1200, min_K=16, chunk=6, diff_cycles=10,
